@@ -28,6 +28,8 @@ BAD_HEADERS = {
     "str_name": [("x", b"v")], "str_value": [(b"n", "v")], "pseudo": [(b":status", b"200")], "int_value": [(b"n", 3)],
     "crlf_value": [(b"n", b"a\r\nset-cookie: x")], "nul_name": [(b"n\x00", b"v")], "empty_name": [(b"", b"v")], "lf_value": [(b"n", b"a\nb")],
     "none_value": [(b"n", None)],
+    # what the server strips before sending is part of the name it sends: a pseudo header / an empty name hidden behind whitespace
+    "sp_pseudo": [(b" :status", b"200")], "tab_pseudo": [(b"\t:path", b"/x")], "blank_name": [(b"  ", b"v")],
 }
 CTL = (0, 10, 13)
 
@@ -69,6 +71,9 @@ def ws_alphabet() -> List[Tuple[str, dict]]:
         ("accept:hdr", {"type": "websocket.accept", "headers": [(b"x-extra", b"1")]}),
         ("accept:hdr_proto", {"type": "websocket.accept", "headers": [(b"sec-websocket-protocol", b"chat")]}),
         ("accept:hdr_pseudo", {"type": "websocket.accept", "headers": [(b":status", b"200")]}),
+        ("accept:hdr_sp_pseudo", {"type": "websocket.accept", "headers": [(b" :status", b"200")]}),
+        ("accept:hdr_sp_proto", {"type": "websocket.accept", "headers": [(b" sec-websocket-protocol", b"chat")]}),
+        ("accept:hdr_blank", {"type": "websocket.accept", "headers": [(b" ", b"v")]}),
         ("accept:hdr_crlf", {"type": "websocket.accept", "headers": [(b"x-extra", b"1\r\nx: y")]}),
         ("send:text", {"type": "websocket.send", "text": "hi"}),
         ("send:bytes", {"type": "websocket.send", "bytes": b"\x00\x01"}),
@@ -95,7 +100,8 @@ def headers_ok(hs) -> bool:
     for n, v in hs:
         if not isinstance(n, (bytes, bytearray)) or not isinstance(v, (bytes, bytearray)):
             return False
-        if len(n) == 0 or n[:1] == b":":
+        sent = bytes(n).strip()          # the name as the server would put it on the wire
+        if len(sent) == 0 or sent[:1] == b":":
             return False
         if any(c in CTL for c in bytes(n)) or any(c in CTL for c in bytes(v)):
             return False
@@ -152,7 +158,7 @@ class WsRef:
                 return False
             sp = m.get("subprotocol")
             hs = m.get("headers", [])
-            return (sp is None or sp in ("chat", "superchat")) and headers_ok(hs) and not any(n == b"sec-websocket-protocol" for n, _ in hs)
+            return (sp is None or sp in ("chat", "superchat")) and headers_ok(hs) and not any(bytes(n).strip() == b"sec-websocket-protocol" for n, _ in hs)
         if t == "websocket.close":
             return self.st in ("HANDSHAKE", "CONNECTED")
         if t == "websocket.send":
